@@ -63,7 +63,13 @@ XROOT = z3.Function("xml_root", Blob, XmlT)
 NEL = z3.Function("xml_iter_len", XmlT, I)                    # ... root.iter() = all elements in document order
 EL = z3.Function("xml_iter_elem", XmlT, I, XmlT)
 TAG = z3.Function("xml_tag", XmlT, S)                         # Clark notation {namespace}local
-LOCAL = z3.Function("xml_local_name", S, S)                   # tag.rsplit('}', 1)[-1]
+AFTER_LAST = z3.Function("text_after_last", S, S, S)          # the part of s after the last occurrence of sep (all of s if none)
+
+
+def LOCAL(tag):
+    """Local name of a Clark-notation tag {namespace}local -- however the code cuts it off: tag.rsplit('}', 1)[-1],
+    tag.rpartition('}')[2], tag.split('}')[-1] are all `the text after the last "}"`."""
+    return AFTER_LAST(tag, sv("}"))
 
 
 def HAS_ENC_ELEM(blob):
@@ -304,14 +310,51 @@ def m_xml_iter(ex, st, obj, args, kwargs, node):
     return [(st, VSeq(NEL(obj.t), lambda k: VExt("XmlElem", EL(obj.t, k)), "XmlElem"))]
 
 
+def _const_sep(args, i=1):
+    return args[i].const() if len(args) > i and isinstance(args[i], VStr) and args[i].const() else None
+
+
+class VModDict(VUnk):
+    """The namespace dict of a module (vars(m) / m.__dict__): stores are bindings of that module."""
+    __slots__ = ("mod",)
+
+    def __init__(self, mod):
+        super().__init__("module-dict")
+        self.mod = mod
+
+
+class VPieces(VUnk):
+    """Result of s.split(sep) / s.rsplit(sep, 1): a list of unknown length >= 1 of which only the LAST piece is known."""
+    __slots__ = ("last",)
+
+    def __init__(self, last):
+        super().__init__("pieces")
+        self.last = last
+
+
 def m_str_rsplit(ex, st, args, kwargs, node):
-    """s.rsplit('}', 1): the last piece is the local name of a Clark-notation tag."""
-    s_ = args[0]
-    sep = args[1].const() if len(args) > 1 and isinstance(args[1], VStr) else None
-    mx = args[2].const() if len(args) > 2 and isinstance(args[2], VInt) else None
-    if sep == "}" and mx == 1:
-        return [(st, VTuple([VStr(z3.String(fresh_name("ns"))), VStr(LOCAL(s_.t))]))]
+    """s.rsplit(sep, 1): [head, tail] or [s]; in both cases the LAST piece is the text after the last sep."""
+    s_, sep = args[0], _const_sep(args)
+    mx = args[2] if len(args) > 2 else kwargs.get("maxsplit")
+    if sep is not None and isinstance(mx, VInt) and mx.const() == 1:
+        return [(st, VPieces(VStr(AFTER_LAST(s_.t, sv(sep)))))]
     return [(st, VUnk("str.rsplit"))]
+
+
+def m_str_split(ex, st, args, kwargs, node):
+    """s.split(sep): >= 1 pieces, the last one is the text after the last sep."""
+    s_, sep = args[0], _const_sep(args)
+    if sep is not None and len(args) == 2 and not kwargs:
+        return [(st, VPieces(VStr(AFTER_LAST(s_.t, sv(sep)))))]
+    return [(st, VUnk("str.split"))]
+
+
+def m_str_rpartition(ex, st, args, kwargs, node):
+    """s.rpartition(sep) = (head, sep or '', tail): tail is the text after the last sep (s itself if sep does not occur)."""
+    s_, sep = args[0], _const_sep(args)
+    if sep is not None:
+        return [(st, VTuple([VStr(z3.String(fresh_name("head"))), VStr(z3.String(fresh_name("sep"))), VStr(AFTER_LAST(s_.t, sv(sep)))]))]
+    return [(st, VUnk("str.rpartition"))]
 
 
 def install_container_models(reg):
@@ -319,6 +362,8 @@ def install_container_models(reg):
     reg.method_models[("XmlElem", "iter")] = m_xml_iter
     reg.attr_models[("XmlElem", "tag")] = lambda ex, st, o: VStr(TAG(o.t))
     reg.ext_models["str.rsplit"] = m_str_rsplit
+    reg.ext_models["str.split"] = m_str_split
+    reg.ext_models["str.rpartition"] = m_str_rpartition
     reg.ext_models["olefile.isOleFile"] = m_isOleFile
     reg.ext_models["olefile.OleFileIO"] = m_OleFileIO
     reg.ext_models[("with", "OleFile")] = with_passthrough
@@ -520,7 +565,93 @@ class C08Executor(readfile.ReadFileExecutor):
 
     def symbolic_for(self, s, st, it):
         self._loop_subject = ("for", it, st)
+        if isinstance(it, VSeq) and self.contract is not None and self._loop_spec(s) is None:
+            spec = self.infer_search_invariant(s, st, it)
+            if spec is not None:
+                self.__dict__.setdefault("_inferred_specs", {})[id(s)] = (s, spec)
+            self._loop_subject = ("for", it, st)
         return super().symbolic_for(s, st, it)
+
+    def infer_search_invariant(self, node, st, it):
+        """A `for` over a symbolic sequence whose body only LOOKS at the element and leaves (return / break / raise) when it
+        finds something -- the loop form of any() / all() / next().  Every iteration that falls through established FALL(k)
+        (the path condition of falling through, a function of the position only) and changed nothing, so
+        `forall j < i. FALL(j)` is an invariant by construction; the engine still checks inv-init / inv-preserve.
+        Found by running the body once on a scratch copy at a symbolic position; None when the body does more than look."""
+        from pyvc.ops import Unsupported
+        from pyvc import values as _values
+        if node.orelse:
+            return None
+        saved = (self.obls, self.paths, list(self.exc_any_sites), getattr(self, "_loop_subject", None),
+                 list(getattr(self.contract, "_imprecise", [])), list(self.abstracted))
+        self.obls = {}
+        self.sinks.append([])
+        try:
+            k = z3.Int(fresh_name("k"))
+            tick = next(_values._fresh)
+            s2 = st.fork()
+            s2.assume(z3.And(k >= 0, k < it.length))
+            base = len(s2.pc)
+            ref = s2.fork()
+            outs = []
+            for s3 in self.assign(node.target, it.elem(k), s2):
+                outs.extend(self.exec_block(node.body, s3))
+            after = next(_values._fresh)
+        except (Unsupported, Exception):  # noqa  (any trouble: no inference, the loop is cut without invariant as before)
+            return None
+        finally:
+            self.sinks.pop()
+            self.obls, self.paths = saved[0], saved[1]
+            self.exc_any_sites[:] = saved[2]
+            self._loop_subject = saved[3]
+            self.contract.__dict__["_imprecise"] = saved[4]
+            self.abstracted[:] = saved[5]
+        falls = [o.st for o in outs if o.kind in ("fall", "continue")]
+        if not falls:
+            return None
+        targets = {n.id for n in ast.walk(node.target) if isinstance(n, ast.Name)}
+        assigned = self.assigned_names(node.body)
+        # temporaries only: every other name the body assigns is written before it is read, in source order
+        first = {}
+        for n in (x for b in node.body for x in ast.walk(b)):
+            if isinstance(n, ast.Name) and n.id in assigned and n.id not in first:
+                first[n.id] = isinstance(n.ctx, ast.Store)
+        if not all(first.get(a, True) for a in assigned - targets):
+            return None
+        for f in falls:
+            if len(f.frames) != len(ref.frames) or len(f.yielded) != len(ref.yielded):
+                return None
+            for fa, fb in zip(f.frames, ref.frames):
+                for name, v in fa.env.items():
+                    if name not in assigned and name not in targets and fb.env.get(name) is not v:
+                        return None
+            if any(f.heap.get(r) is not o for r, o in ref.heap.items()) or set(f.heap) - set(ref.heap):
+                return None
+            try:
+                if f.ghost != ref.ghost:
+                    return None
+            except Exception:  # noqa
+                return None
+        fall_k = z3.Or([z3.And([z3.BoolVal(True)] + list(f.pc[base:])) for f in falls])
+        seen, stack = set(), [fall_k]
+        while stack:
+            x = stack.pop()
+            if x.get_id() in seen:
+                continue
+            seen.add(x.get_id())
+            if z3.is_const(x) and x.decl().kind() == z3.Z3_OP_UNINTERPRETED and "!" in x.decl().name() and not x.eq(k):
+                try:
+                    idx = int(x.decl().name().rsplit("!", 1)[1])
+                except ValueError:
+                    idx = -1
+                if tick < idx < after:
+                    return None          # the fall-through condition mentions a value created during the iteration
+            stack.extend(x.children())
+
+        def inv(lc, fall_k=fall_k, k=k):
+            j = z3.Int("j!search")
+            return z3.ForAll([j], z3.Implies(z3.And(j >= 0, j < lc.i), z3.substitute(fall_k, (k, j))))
+        return LoopSpec(inv=inv, label=f"search-{it.ekind}")
 
     def s_While(self, s, st):
         self._loop_subject = ("while", None, st)
@@ -544,6 +675,9 @@ class C08Executor(readfile.ReadFileExecutor):
         if self.contract is None:
             return None
         kind, it, st = getattr(self, "_loop_subject", (None, None, None))
+        inferred = getattr(self, "_inferred_specs", {}).get(id(node))
+        if inferred is not None and inferred[0] is node:
+            return inferred[1]
         if isinstance(node, ast.For) and kind == "for" and isinstance(it, VSeq) and isinstance(it.tag, tuple) and it.tag:
             return LOOP_RULES.get((it.ekind, it.tag[0]))
         if isinstance(node, ast.While) and kind == "while" and st is not None:
@@ -600,8 +734,22 @@ class C08Executor(readfile.ReadFileExecutor):
     def _grown_list(self, st, v):
         return hasattr(v, "ref") and st.obj(v.ref).kind == "unk" and st.ghost.get(("growing", v.ref))
 
+    def get_index(self, st, base, idx, node):
+        if isinstance(base, VPieces) and isinstance(idx, VInt) and idx.const() == -1:
+            return [(st, base.last)]          # a split result is never empty: [-1] exists and is the text after the last separator
+        return super().get_index(st, base, idx, node)
+
     def get_attr(self, st, base, attr, node):
         from pyvc.values import VMod
+        if attr in ("__name__", "__qualname__") and isinstance(base, VFunc):
+            if base.how == "repo":
+                return [(st, VStr(base.b if attr == "__qualname__" else base.b.split(".")[-1]))]
+            if base.how == "closure" and hasattr(base.a, "name"):
+                return [(st, VStr(base.a.name))]
+        if isinstance(base, VMod) and attr == "__dict__":
+            return [(st, VModDict(base.name))]
+        if isinstance(base, VModDict) and attr == "update":
+            return [(st, VFunc("bound", base, attr))]
         if isinstance(base, VMod) and ("bind", base.name, attr) in st.ghost:
             return [(st, st.ghost[("bind", base.name, attr)])]       # a name this activation has (re)bound in that module
         if attr in self._LIST_GROW and self._grown_list(st, base):
@@ -611,6 +759,13 @@ class C08Executor(readfile.ReadFileExecutor):
         return super().get_attr(st, base, attr, node)
 
     def call_method(self, st, obj, name, args, kwargs, node):
+        if isinstance(obj, VModDict) and name == "update" and len(args) == 1 and not kwargs:
+            a = args[0]
+            items = st.obj(a.ref).data if hasattr(a, "ref") and st.obj(a.ref).kind == "dict" else (a.items if hasattr(a, "items") and isinstance(getattr(a, "items"), dict) else None)
+            if isinstance(items, dict) and all(isinstance(k_, str) for k_ in items):
+                for k_, v_ in items.items():
+                    st.ghost[("bind", obj.mod, k_)] = v_
+                return [(st, NONE)]
         if name in self._LIST_GROW and self._grown_list(st, obj):
             return [(st, NONE)]
         if name == "close" and not args and isinstance(obj, (VUnk, VExt)) and self.reg.method_models.get((getattr(obj, "sort", None), name)) is None:
@@ -699,6 +854,8 @@ class C08Executor(readfile.ReadFileExecutor):
                 if tick < idx < after and not x.eq(k):
                     raise Unsupported(f"{self.loc(n)} comprehension condition creates fresh symbols")
             stack.extend(x.children())
+        if not g.ifs:        # nothing filtered: position i of the result is position i of the source
+            return [(st, VSeq(src.length, lambda t: at(t)[1], "?", False))]
         m = z3.Int(fresh_name("m"))
         IDX = z3.Function(fresh_name("kept_pos"), I, I)
         INV = z3.Function(fresh_name("kept_rank"), I, I)
@@ -768,6 +925,40 @@ class C08Executor(readfile.ReadFileExecutor):
             q = args[0]
             return [(st, VSeq(q.length, lambda i, q=q: q.elem(q.length - 1 - i), q.ekind, q.is_bytes, tag=("reversed", q.tag)))]
         return super().b_reversed(st, args, kwargs, node)
+
+    def b_next(self, st, args, kwargs, node):
+        # next((True for x in seq if cond(x)), False)  ==  any(cond(x) for x in seq)
+        if len(args) == 2 and isinstance(args[0], VGen) and node.args and isinstance(node.args[0], ast.GeneratorExp) \
+                and isinstance(node.args[0].elt, ast.Constant) and node.args[0].elt.value is True \
+                and isinstance(args[1], VBool) and args[1].const() is False:
+            g = args[0]
+            return [(st, VBool(z3.Exists(g.vars, z3.And(g.cond, g.elt))))]
+        return super().b_next(st, args, kwargs, node)
+
+    def e_SetComp(self, n, st):
+        from pyvc.ops import Unsupported
+        mark = len(self.sinks[-1])
+        try:
+            return super().e_SetComp(n, st.fork())
+        except Unsupported:
+            del self.sinks[-1][mark:]
+            return self.filtered_view(n, st)      # only membership / emptiness of the result is ever looked at: same as the list
+
+    def b_vars(self, st, args, kwargs, node):
+        from pyvc.values import VMod
+        if len(args) == 1 and isinstance(args[0], VMod):
+            return [(st, VModDict(args[0].name))]
+        return self.havoc_call(st, "vars", args, node)
+
+    def store_index(self, st, base, idx, v, node):
+        if isinstance(base, VModDict):          # vars(module)[name] = value / module.__dict__[name] = value
+            nm = idx.const() if isinstance(idx, VStr) else None
+            if nm is None:
+                self._imprecise("module namespace store with a computed name")
+                return [st]
+            st.ghost[("bind", base.mod, nm)] = v
+            return [st]
+        return super().store_index(st, base, idx, v, node)
 
     def b_any(self, st, args, kwargs, node):
         if args and isinstance(args[0], VGen):
